@@ -98,6 +98,53 @@ impl Future for SimYield {
     }
 }
 
+/// The latency phase of a *busy* inner call: at every poll before `due` it takes units from
+/// tokio's cooperative budget until none is left (what a loop over an always-ready tokio
+/// resource does), so it returns `Pending` with the budget exhausted. Each such poll costs one
+/// virtual millisecond (the scheduler moves the clock). Outside a budgeted simulated task (e.g.
+/// inside a task the library spawned, where nothing would move the clock) it simply sleeps.
+struct BusyWait {
+    due: tokio::time::Instant,
+    sleep: Option<Pin<Box<tokio::time::Sleep>>>,
+    announced: bool,
+}
+
+impl Future for BusyWait {
+    type Output = ();
+    fn poll(mut self: Pin<&mut Self>, cx: &mut Context<'_>) -> Poll<()> {
+        if tokio::time::Instant::now() >= self.due {
+            return Poll::Ready(());
+        }
+        let budgeted = world::with(|w| w.cur_task >= 0 && w.constrained_now && !w.ended);
+        if budgeted && !self.announced {
+            // tell the scheduler first (a plain yield): a task that is about to hog the thread
+            // runs after the others that are runnable at this instant
+            self.announced = true;
+            world::with(|w| {
+                w.busy_mark = true;
+                w.intentional_yield = true;
+            });
+            cx.waker().wake_by_ref();
+            return Poll::Pending;
+        }
+        if budgeted {
+            for _ in 0..1024 {
+                match tokio::task::coop::poll_proceed(cx) {
+                    Poll::Ready(r) => r.made_progress(),
+                    Poll::Pending => {
+                        world::fault("inner_busy_poll_budget_exhausted");
+                        world::with(|w| w.busy_poll = true);
+                        return Poll::Pending;
+                    }
+                }
+            }
+        }
+        let due = self.due;
+        let sl = self.sleep.get_or_insert_with(|| Box::pin(tokio::time::sleep_until(due)));
+        sl.as_mut().poll(cx)
+    }
+}
+
 pub struct SimInner {
     pub svc: u8,
     pub inst: u32,
@@ -347,8 +394,13 @@ impl tower::Service<Req> for SimInner {
             done: None,
         };
         let req_id = req.id;
+        let busy = world::with(|w| w.script.busy.contains(&(svc, req.id)));
         Box::pin(async move {
-            if beh.lat_ms > 0 {
+            if busy {
+                // a never-completing busy call stays busy for longer than any generated timeout
+                let ms = if beh.out == Outcome::Never { 300 } else { beh.lat_ms };
+                BusyWait { due: tokio::time::Instant::now() + Duration::from_millis(ms), sleep: None, announced: false }.await;
+            } else if beh.lat_ms > 0 {
                 tokio::time::sleep(Duration::from_millis(beh.lat_ms)).await;
             }
             for _ in 0..beh.yields {
